@@ -178,6 +178,15 @@ def c07 (c : Ctx) : String :=
     -- "no later output of the set changes": the same call on a fresh set with ALL definition steps made so far
     -- must equal the call on a fresh set with only those made before the first execution (both references are
     -- fresh real sets, so history-dependence of the escaper — C06 — does not enter here)
+    -- clone independence: once a set has been cloned (or is a clone), its results must not depend on what was
+    -- executed in the related sets: the call equals the same call on a fresh set. A deviation that carries the
+    -- signature of an order dependence WITHIN one set (listed under C06) is not counted here.
+    else if isExecOp (opOf l) && !isPanic s.res && !isPanic s.fresh && !sameObservable s.res s.fresh &&
+        !c.prefixReuse && !c.oddNames &&
+        (List.range i).any (fun j => opOf (c.lines.getD j "") == "clone" && (c.steps.getD j {res := ""}).res == "ok") &&
+        -- executions in at least two different sets precede or include this step
+        ((List.range (i + 1)).filter (fun j => isExecOp (opOf (c.lines.getD j "")))).any (fun j => c.sets.getD j 0 != setI) then
+      some ("result-depends-on-executions-in-a-related-set", "")
     else if isExecOp (opOf l) && !isPanic s.fresh && !isPanic s.frozen && !sameObservable s.fresh s.frozen then
       let newAfter := (List.range i).any fun j =>
         fe < j && opOf (c.lines.getD j "") == "assocnew" && c.sets.getD j 0 == setI
